@@ -11,6 +11,7 @@ from props.base import Context  # noqa: F401
 from props.progcases import ProgramSpec
 
 PID = 'C02'
+EXTRA_MODULES = ['DiffxVerif.Properties.C02Doc']
 TIE_MODULES = ['DiffxVerif.Tie.Sections', 'DiffxVerif.Tie.Spec']
 NEEDS = ['sections', 'options', 'text', 'spec_tree']
 ASSUMPTIONS = [
